@@ -218,6 +218,9 @@ SOLVE_CASES = [
     # the same combination built twice (two objects, one decomposition), both decomposed
     dict(L=[1.0, 2.0], step="block", second="new_combo", copies=True),
     dict(L=[1.0, 2.0, 4.0], step="gd", second="none", copies=True),
+    # a partition created, and points decomposed in it, BETWEEN two solves
+    dict(L=[1.0, 2.0], step="block", second="new_partition"),
+    dict(L=[1.0], step="gd", second="new_partition"),
 ]
 
 
@@ -296,6 +299,12 @@ def judge_solve(case):
                 part.get_block(x1, 0)
             elif case["second"] == "new_combo":
                 part.get_block(x0 - xs, d - 1)
+            elif case["second"] == "new_partition":
+                newp = p.declare_block_partition(d=3)
+                parts.append(newp); logs.append([]); origs.append(newp.get_block)
+                newp.get_block = make_logged(len(parts) - 1)
+                newp.get_block(x1, 0)
+                newp.get_block(g0, 2)
         with REC.recording():
             r = solving.solve(p)
         if r["exc"] is not None:
